@@ -65,10 +65,9 @@ Theorem C02_alt_queue_nothing_lost : forall m t T, qt_ok t ->
 Proof. exact qt_ends_spec. Qed.
 Print Assumptions C02_alt_queue_nothing_lost.
 
-(* REFUTED part (known finding): a push below FLOAT_ACCURACY is answered "all taken"
-   while nothing is recorded — its pollutant load is dropped *)
-Example C02_refuted_tiny_push :
+(* a push below FLOAT_ACCURACY is handed back whole: nothing recorded, nothing lost *)
+Example C02_tiny_push_handed_back :
   let q := q_init (10#1) 1 [] in let s := (w_idle, w_rejecting) in
-  q_send_push _ nbport q s w_tiny false 0 = (q, s, vzero) /\ get (adds w_tiny) 0 == 1.
-Proof. exact C02_refuted_tiny_push_dropped. Qed.
-Print Assumptions C02_refuted_tiny_push.
+  q_send_push _ nbport q s w_tiny false 0 = (q, s, w_tiny).
+Proof. exact tiny_push_is_handed_back. Qed.
+Print Assumptions C02_tiny_push_handed_back.
